@@ -1,6 +1,7 @@
 package rules
 
 import (
+	"fmt"
 	"strings"
 
 	"golang.org/x/tools/go/ssa"
@@ -42,14 +43,24 @@ func runC14(c *an.Ctx) {
 			ct := c.T(cl)
 			guard := an.HasRecoverGuard(cl)
 			okG := false
+			okRes := false
 			if guard != nil {
 				gt, gf := c.T(guard), c.F(guard)
 				an.Instrs(guard, func(in ssa.Instruction) {
 					if st, isSt := in.(*ssa.Store); isSt {
-						if _, isFV := st.Addr.(*ssa.FreeVar); isFV && an.IsErrorType(st.Val.Type()) && gt.ErrShape(st.Val) != "nil" {
+						if fv, isFV := st.Addr.(*ssa.FreeVar); isFV && an.IsErrorType(st.Val.Type()) && gt.ErrShape(st.Val) != "nil" {
 							for _, f := range gf.AtInstr(st) {
 								if f.Op == "EQ" && !f.Pos && (f.A == "nil" || f.B == "nil") {
 									okG = true
+								}
+							}
+							// the variable written is the wrapper's (named) error result: what the
+							// wrapper returns after a recovered panic is a load of that very variable
+							if bound := boundAlloc(cl, guard, fv); bound != nil && cl.Recover != nil {
+								if r, isRet := cl.Recover.Instrs[len(cl.Recover.Instrs)-1].(*ssa.Return); isRet && len(r.Results) == 1 {
+									if u, isU := r.Results[0].(*ssa.UnOp); isU && u.X == ssa.Value(bound) {
+										okRes = true
+									}
 								}
 							}
 						}
@@ -57,6 +68,7 @@ func runC14(c *an.Ctx) {
 				})
 			}
 			c.Check(okG, "C14.a", "handler-recover", "a registered handler runs under a deferred recover() that turns a panic into a non-nil error", cl, nil, "", nil)
+			c.Check(okRes, "C14.a", "recovered-error-is-result", "the error built from a recovered panic is stored into the wrapper's own error result, which is what the wrapper returns after the panic", cl, nil, "", nil)
 			// the wrapper calls the user function with its own arguments and returns its result
 			okCall := false
 			an.Instrs(cl, func(in ssa.Instruction) {
@@ -141,6 +153,108 @@ func runC14(c *an.Ctx) {
 			ef := sf.EdgeFacts(pred, loop.Header)
 			c.Check(ef.Has(an.EQ(hErr, "nil")), "C14.b", "next-handler-needs-success", "the next handler runs only after the previous one returned nil", d.single, hcall, "", ef)
 		}
+	}
+
+	// once the handlers of a height have run, the only thing that can still stop the
+	// step is the removal itself: every error return after the handler loop carries the
+	// error of a handler or of a removal operation (no other failure point between
+	// "handlers were told" and "header removed")
+	{
+		nAfter := 0
+		for _, r := range sf.Returns() {
+			if !(an.Flow{Fn: d.single}).CanReach(hcall, r) {
+				continue
+			}
+			ev := errResult(r)
+			if st.ErrShape(ev) == "nil" {
+				continue
+			}
+			nAfter++
+			okSrc := false
+			src := ""
+			if call, isCall := st.Deref(ev).(*ssa.Call); isCall && strings.HasSuffix(an.StaticFullName(&call.Call), "fmt.Errorf") && len(call.Call.Args) == 2 {
+				for _, a := range an.VariadicArgs(call.Call.Args[1]) {
+					a = an.Unwrap(a)
+					if !an.IsErrorType(a.Type()) {
+						continue
+					}
+					src = st.Of(a)
+					if a == ssa.Value(hcall) {
+						okSrc = true
+					}
+					for _, rm := range rems {
+						if rm.Instr != nil && a == ssa.Value(rm.Instr) {
+							okSrc = true
+						}
+					}
+				}
+			} else {
+				src = st.Of(ev)
+			}
+			c.Check(okSrc, "C14.b", "no-failure-point-after-handlers", "after the handlers of a height ran, the step fails only with a handler's error or with the error of a removal operation", d.single, r, "error from "+an.Stable(src), nil)
+		}
+		c.Min("C14.b", "error returns after the handler loop", nAfter, 3)
+	}
+	// the drivers treat "header already missing" as success; a handler's error must never be mistaken for it:
+	// the sentinel they test for is private to package store, so no handler (foreign code) can produce it
+	{
+		// does the step hand a handler's / removal's error on in a form errors.Is can see through?
+		transparent := false
+		for _, r := range sf.Returns() {
+			if !(an.Flow{Fn: d.single}).CanReach(hcall, r) {
+				continue
+			}
+			ev := st.Deref(errResult(r))
+			call, isCall := ev.(*ssa.Call)
+			switch {
+			case isCall && strings.HasSuffix(an.StaticFullName(&call.Call), "fmt.Errorf"):
+				if k, isK := call.Call.Args[0].(*ssa.Const); !isK || strings.Contains(k.Value.ExactString(), "%w") {
+					transparent = true
+				}
+			case st.ErrShape(errResult(r)) == "nil":
+			default:
+				transparent = true
+			}
+		}
+		nCls := 0
+		for _, drv := range funcsNamed(c.P, "store.(*Store).deleteSequential", "store.(*Store).deleteParallel") {
+			dt := c.T(drv)
+			for _, sc := range callsTo(drv, d.single) {
+				an.Instrs(drv, func(in ssa.Instruction) {
+					call, isCall := in.(*ssa.Call)
+					if !isCall || an.StaticFullName(&call.Call) != "errors.Is" {
+						return
+					}
+					// errors.Is on the result of the step, directly or through the field it was stored into
+					onStep := call.Call.Args[0] == ssa.Value(sc) || dt.Deref(call.Call.Args[0]) == ssa.Value(sc)
+					if u, isU := call.Call.Args[0].(*ssa.UnOp); isU && !onStep {
+						if fa, isFA := u.X.(*ssa.FieldAddr); isFA {
+							for _, ref := range *sc.Referrers() {
+								if sto, isSt := ref.(*ssa.Store); isSt {
+									if fb, isFB := sto.Addr.(*ssa.FieldAddr); isFB && fb.Field == fa.Field && fb.X == fa.X {
+										onStep = true
+									}
+								}
+							}
+						}
+					}
+					if !onStep {
+						return
+					}
+					nCls++
+					g := an.GlobalLoad(call.Call.Args[1])
+					private := g != nil && g.Pkg == d.single.Pkg && !g.Object().Exported()
+					name := "?"
+					if g != nil {
+						name = g.Pkg.Pkg.Name() + "." + g.Name()
+					}
+					c.Check(private || !transparent, "C14.b", "handler-error-not-mistaken-for-missing:"+an.FuncName(drv),
+						"the error the drivers skip as 'header already missing' cannot be matched by a handler's (or a removal's) error: either the sentinel is private to package store, or the step does not wrap those errors transparently (%w)",
+						drv, call, "tests for "+name+"; the step wraps foreign errors with %w: "+fmt.Sprint(transparent), nil)
+				})
+			}
+		}
+		c.Min("C14.b", "'header missing' classifications in the drivers", nCls, 2)
 	}
 
 	// --- C14.c once per height, handlers only in the step
